@@ -68,7 +68,7 @@ def main():
         args = [a for a in args if a != ",".join(extra)]
     if args:
         names = [n for n in names if any(a in n for a in args)]
-    with cf.ThreadPoolExecutor(max_workers=4) as ex:
+    with cf.ThreadPoolExecutor(max_workers=3) as ex:
         for meta in ex.map(lambda n: one(n, extra), names):
             old = {}
             mp = os.path.join(SEEDED, meta["id"], "meta.json")
